@@ -25,7 +25,7 @@ class Budget(Exception):
 
 class Explorer:
     def __init__(self, F, automaton, classify, chain=(), cell_accessors=None, cmp_sites=None, max_states=1500000, depth=4,
-                 kill_facts=None, sticky=('Q', 'K', 'P', 'R')):
+                 kill_facts=None, sticky=('Q', 'K', 'P', 'R'), boundary=None):
         self.F = F
         self.A = automaton
         self.classify = classify
@@ -37,6 +37,8 @@ class Explorer:
         self._closure_cache = {}
         self.COMBINATORS = self._mk_combinators()
         self.spin_edges = {}
+        self.boundary = boundary
+        self.cur_facts = frozenset()
         self.max_states = max_states
         self.depth = depth
         self.memo = {}
@@ -690,9 +692,20 @@ class Explorer:
             if callee_f is not None and callee_f.id != f.id and not callee_f.coroutine:
                 cargs = tuple(STAR if (isinstance(a, tuple) and a and a[0] == 'ref') else a for a in args)
                 self.stats['calls'] += 1
+                bev = self.boundary(t, f, callee_f, level, nlevel) if self.boundary else None
                 for (ret, env2, labels) in self.summarize(callee_f, cargs, env, nlevel):
                     if ret == 'YIELD':
                         continue
+                    if bev is not None:
+                        self.cur_facts = env2[2]
+                        a2 = self.A.step(env2[0], bev, ret, site, self)
+                        lab = '%s.%s=%s' % (bev[0], bev[1], shape_str(ret))
+                        f2 = env2[2]
+                        killed = set(self.kill_facts(bev, ret))
+                        if killed:
+                            f2 = frozenset(x for x in f2 if x[0] not in killed)
+                        env2 = (a2, env2[1], f2)
+                        labels = (labels[0] | {lab}, labels[1] | {lab})
                     l2 = dict(loc)
                     c2 = dict(env2[1])
                     self.set_place(l2, c2, t['dest'], ret)
@@ -756,6 +769,7 @@ class Explorer:
                 self.set_place(l2, c2, t['dest'], shape)
                 a2, labels, f2 = aut, E, facts
                 if ev:
+                    self.cur_facts = facts
                     a2 = self.A.step(aut, ev, shape, site, self)
                     lab = '%s.%s=%s' % (ev[0], ev[1], shape_str(shape))
                     _l = frozenset([lab])
